@@ -384,8 +384,8 @@ func (r *Reader) VerifyTOC(tocDigest digest.Digest) (TOCEntryVerifier, error) {
 // Verifiers returns TOCEntryVerifier of this chunk. Use VerifyTOC instead in most cases
 // because this doesn't verify TOC.
 func (r *Reader) Verifiers() (TOCEntryVerifier, error) {
-	chunkDigestMap := make(map[int64]digest.Digest) // map from chunk offset to the chunk digest
-	regDigestMap := make(map[int64]digest.Digest)   // map from chunk offset to the reg file digest
+	chunkDigestMap := make(map[chunkPos]digest.Digest) // map from chunk position to the chunk digest
+	regDigestMap := make(map[chunkPos]digest.Digest)   // map from chunk position to the reg file digest
 	var chunkDigestMapIncomplete bool
 	var regDigestMapIncomplete bool
 	var containsChunk bool
@@ -394,11 +394,14 @@ func (r *Reader) Verifiers() (TOCEntryVerifier, error) {
 			continue
 		}
 
-		// offset must be unique in stargz blob
-		_, dOK := chunkDigestMap[e.Offset]
-		_, rOK := regDigestMap[e.Offset]
+		// position must be unique in stargz blob. Chunks can share a compressed stream (when
+		// the blob is built with the min chunk size option) so the position is the pair of the
+		// stream's offset and the offset in that stream.
+		pos := chunkPos{e.Offset, e.InnerOffset}
+		_, dOK := chunkDigestMap[pos]
+		_, rOK := regDigestMap[pos]
 		if dOK || rOK {
-			return nil, fmt.Errorf("offset %d found twice", e.Offset)
+			return nil, fmt.Errorf("offset %d (inner offset %d) found twice", e.Offset, e.InnerOffset)
 		}
 
 		if e.Type == "reg" {
@@ -412,7 +415,7 @@ func (r *Reader) Verifiers() (TOCEntryVerifier, error) {
 				if err != nil {
 					return nil, fmt.Errorf("failed to parse regular file digest %q: %w", e.Digest, err)
 				}
-				regDigestMap[e.Offset] = d
+				regDigestMap[pos] = d
 			} else {
 				regDigestMapIncomplete = true
 			}
@@ -427,7 +430,7 @@ func (r *Reader) Verifiers() (TOCEntryVerifier, error) {
 			if err != nil {
 				return nil, fmt.Errorf("failed to parse chunk digest %q: %w", e.ChunkDigest, err)
 			}
-			chunkDigestMap[e.Offset] = d
+			chunkDigestMap[pos] = d
 		} else {
 			chunkDigestMapIncomplete = true
 		}
@@ -445,10 +448,17 @@ func (r *Reader) Verifiers() (TOCEntryVerifier, error) {
 	return &verifier{digestMap: chunkDigestMap}, nil
 }
 
+// chunkPos is the position of a chunk in the blob: the offset of the compressed stream that
+// contains it and the offset of the chunk in that (uncompressed) stream.
+type chunkPos struct {
+	offset      int64
+	innerOffset int64
+}
+
 // verifier is an implementation of TOCEntryVerifier which holds verifiers keyed by
-// offset of the chunk.
+// position of the chunk.
 type verifier struct {
-	digestMap   map[int64]digest.Digest
+	digestMap   map[chunkPos]digest.Digest
 	digestMapMu sync.Mutex
 }
 
@@ -456,7 +466,7 @@ type verifier struct {
 func (v *verifier) Verifier(ce *TOCEntry) (digest.Verifier, error) {
 	v.digestMapMu.Lock()
 	defer v.digestMapMu.Unlock()
-	d, ok := v.digestMap[ce.Offset]
+	d, ok := v.digestMap[chunkPos{ce.Offset, ce.InnerOffset}]
 	if !ok {
 		return nil, fmt.Errorf("verifier for offset=%d,size=%d hasn't been registered",
 			ce.Offset, ce.ChunkSize)
